@@ -6,7 +6,7 @@ from . import C11 as _c11
 ID = "C13"
 SUITES = ["frame", "table"]
 LEAN_MODULES = ["VpnCloud.Proofs.C13"]
-THEOREMS = []
+THEOREMS = ["VpnCloud.Proofs.C13." + n for n in ("learn_spec", "learn_last_writer", "learn_expiry", "disconnect_forgets", "vlan_normalised", "vlan_normalised_model", "vlan_tag_injective", "tagged_ne_untagged")]
 BATCH = 200
 SEARCH_BUDGET_S = 300
 RULE = ("suite frame: all 65536 tag-control values behind ethertype 81 00 (every value in both tiers), nested tags; suite table: learn / "
